@@ -217,6 +217,9 @@ func c15Func(c *Ctx, fd *ast.FuncDecl) {
 	lob := c.Ob("C15.R1", name+"/loop", loop.Node.Pos())
 	var keyT, elemOK = Term(nil), false
 	var loopVars []types.Object
+	if r := v.asRange(loop); r != nil {
+		loop = r
+	}
 	if loop.Range != nil {
 		if !v.isRecvSpine(loop.Over) {
 			lob.Fail("the spawning loop does not range over the receiver's own spine")
